@@ -638,6 +638,11 @@ def verify_contract(contract, registry, combo_filter=None, timeout_ms=10000, rou
                                   g = z3.BoolVal(False)
                               ex.oblige(s3, f"post:result==spec[{nm}]", "post", g, None,
                                         {"code": describe(val), "spec": describe(sval)})
+                              for ai, aobj in enumerate(cenv.get(n) for n, _ in contract.params):
+                                  # entries the function left in the memo of an argument URL
+                                  if isinstance(aobj, V.VObj) and aobj.cls == "URL" and aobj is not val and \
+                                          isinstance(aobj.fields.get("_cache"), V.VSymCache) and aobj.fields["_cache"].extra:
+                                      _memo_obligations(ex, s3, aobj, nm + f"|arg{ai}")
                               if isinstance(val, V.VObj) and val.cls == "URL":
                                   saved_tr = ex.transparent
                                   ex.transparent = set(saved_tr) | contract.memo_transparent
